@@ -93,9 +93,12 @@ def run(module, cfg, workers=16, dump=False, env=None, timeout=3600, extra=(),
         workdir = make_workdir()
     res.workdir = workdir
     module_path = module if module.endswith(".tla") else os.path.join(SPEC_DIR, module + ".tla")
-    cmd = ["java", "-XX:+UseParallelGC"]
-    if heap:
-        cmd.append(f"-Xmx{heap}")
+    # Page faults are very expensive in this sandbox (about 7 s of system time
+    # per GB touched): small fixed heaps and few GC threads are several times
+    # faster than the JVM defaults (14 GB heap, 16 GC threads).
+    heap_mb = int(heap) if heap else (3072 if workers > 1 else 2048)
+    cmd = ["java", "-XX:+UseParallelGC", f"-XX:ParallelGCThreads={4 if workers > 1 else 2}",
+           f"-Xmx{heap_mb}m", f"-Xmn{heap_mb // 2}m"]
     cmd += [f"-DTLA-Library={SPEC_DIR}", "-cp", JAR, "tlc2.TLC",
             "-workers", str(workers), "-metadir", os.path.join(workdir, "meta"),
             "-noGenerateSpecTE", "-config", cfg]
